@@ -35,6 +35,7 @@ func runC11(r *engine.Run) {
 	r.Rule("AGREE-decode", "see C10: DeserializeNode accumulates a branch's weight from the child weights it reads and stores every accepted child entry into a child slot; shortNode.Serialize fills the persisted value reference from the value's Hash() and Weight()")
 	r.Rule("AGREE-sync", "the storage batch's Commit(sync) passes pebble.Sync exactly on the path where its sync parameter is true and pebble.NoSync where it is false (a commit the caller asked to be durable is fsynced)")
 	r.Rule("DOM-cleanfail", "in delete no store dirty = true can be followed by a recursive delete call (nodes are marked only after the delete below them returned): a failed delete (absent key) leaves its search path clean, so the next commit does not re-save unchanged nodes")
+	r.Rule("ORDER-joined", "every goroutine the weighted trie starts that writes trie state (the collectors of Commit) signals the WaitGroup on every path to its end (Done dominates every return, or is deferred), and the function that starts them adds exactly as many to the WaitGroup as it starts: the wait of ORDER-wait covers every collector")
 	r.Rule("ORDER-wait", "Commit defers a closure that closes the created and deleted channels and then waits for the collector goroutines (sync.WaitGroup.Wait): the bookkeeping is complete when Commit returns")
 	r.Rule("FRESH-resolved", "see C09: a resolved reference is a private, freshly decoded node (a memoised object is served under a hash it no longer has, so the live trie and the reopened one differ)")
 	r.Rule("DEP-linkback", "see C09: the subtree returned by every recursive insert/delete/commit call is linked back on every success path (a dropped hash reference leaves a hollow branch in memory while storage has the content)")
@@ -51,6 +52,7 @@ func runC11(r *engine.Run) {
 	refShared(r, "REF-shared")
 	agreeSync(r, "AGREE-sync")
 	orderWait(r, "ORDER-wait")
+	orderJoined(r, "ORDER-joined")
 	domCleanFail(r, "DOM-cleanfail")
 	agreePersist(r, "AGREE-persist")
 	freshCopy(r, "FRESH-copy")
